@@ -196,7 +196,7 @@ type X struct {
 // (the quick tier gives one Check at most 250 000 invocations - a rare, very long minimisation is then inconclusive
 // there and judged in the thorough tier, which allows 1 500 000)
 var maxInvsPerCheck = 1500000
-var maxWallPerCheck = 150 * time.Second // (quick tier: 45 s)
+var maxWallPerCheck = 150 * time.Second
 
 const (
 	maxAcceptedPerCheck = 30000
